@@ -23,6 +23,9 @@ def run(run):
                 v = e["out"]["val"]
                 v[-1] = "1" if v[-1] != "1" else "2"
             strict_negctl_replay(run, b, cases, lambda e: e["op"] == "Fmt.PlainDate" and e["out"]["kind"] == "ok", bump)
+    # toString with a rounding mode in zones with transitions (synthetic provider): the text is the ROUNDED instant as the zone reads it
+    cases, n = run.gen("mc/MC_TimeZone.tla", "gen/Gen_C11_text.cfg", workers=4, name="zonetext", timeout=900)
+    run.replay(b, cases, label="zonetext")
     tr = run.record(b, "c11", 25000 if q else 200000)
     count_distinct(run, tr)
     ok, mm = run.validate("trace/Trace_Format.tla", "trace/Trace_Format.cfg", tr, timeout=1500)
@@ -36,6 +39,6 @@ def run(run):
     run.cov["rule"] = ("replay: every (value, options) transition of the bounded Format instance gives a formatter case and a parser case, distinct by (op, args); "
                        "traces: seeded print/parse/print sessions over the full value ranges, distinct by (op, args); counted after de-duplication")
     run.assumptions += ["Format.tla is my transcription of TemporalDateTimeToString / TemporalDurationToString etc.; its agreement with the reader (Grammar.tla) is model checked",
-                        "rounding mode of toString left at its default (trunc); other modes belong to C07",
+                        "rounding modes of toString other than the default (trunc) belong to C07, except for zoned values and instants printed in a zone with transitions (zonetext)",
                         "named zones: the offset used for printing is the one the implementation's own getter reports (what that offset should be is C13/C15); "
                         "named-zone instants restricted to 1800..2037"]
